@@ -21,9 +21,9 @@ type Fault struct {
 }
 
 var (
-	Seq    int            // number of calls so far
-	Log    []string       // description of every call
-	FailAt map[int]Fault  // 1-based call number -> fault
+	Seq    int                                   // number of calls so far
+	Log    []string                              // description of every call
+	FailAt map[int]Fault                         // 1-based call number -> fault
 	OnCall func(n int, op string, args []string) // observer (e.g. to snapshot the tree before a remove)
 )
 
